@@ -59,17 +59,33 @@ Definition trim (s : text) : text := trim_end (trim_start s).
 
 (** ** case mapping (str::to_uppercase / to_lowercase) for the listed alphabet *)
 Definition case_pairs : list (N * N) :=   (* lower, upper *)
-  [(233, 201); (955, 923); (241, 209); (252, 220); (1078, 1046); (228, 196); (246, 214); (224, 192); (1103, 1071)].
+  [(233, 201); (955, 923); (241, 209); (252, 220); (1078, 1046); (228, 196); (246, 214); (224, 192); (1103, 1071); (963, 931)].
 
 Definition upper_of (c : N) : text :=
   if (97 <=? c) && (c <=? 122) then [c - 32]
   else if c =? 223 then [83; 83]                    (* sharp s -> "SS" *)
+  else if c =? 962 then [931]                       (* final sigma -> capital sigma *)
   else match find (fun p => fst p =? c) case_pairs with Some p => [snd p] | None => [c] end.
 Definition lower_of (c : N) : text :=
   if (65 <=? c) && (c <=? 90) then [c + 32]
   else match find (fun p => snd p =? c) case_pairs with Some p => [fst p] | None => [c] end.
 Definition to_upper (s : text) : text := flat_map upper_of s.
-Definition to_lower (s : text) : text := flat_map lower_of s.
+
+(* str::to_lowercase is context sensitive in exactly one place: a capital sigma at the end of a word (preceded by a cased
+   letter, not followed by one) becomes the final form.  Cased letters of the listed alphabet; the alphabet has no
+   case-ignorable characters (apostrophe, full stop, colon ...), which Rust skips on both sides. *)
+Definition is_cased (c : N) : bool :=
+  ((65 <=? c) && (c <=? 90)) || ((97 <=? c) && (c <=? 122)) || (c =? 223) ||
+  existsb (fun p => (fst p =? c) || (snd p =? c)) case_pairs || (c =? 962).
+Fixpoint lower_ctx (prev_cased : bool) (s : text) : text :=
+  match s with
+  | [] => []
+  | c :: r =>
+    (if c =? 931
+     then (if prev_cased && negb (match r with d :: _ => is_cased d | [] => false end) then [962] else [963])
+     else lower_of c) ++ lower_ctx (is_cased c) r
+  end.
+Definition to_lower (s : text) : text := lower_ctx false s.
 
 Definition ascii_lower (c : N) : N := if (65 <=? c) && (c <=? 90) then c + 32 else c.
 Definition ascii_upper_c (c : N) : N := if (97 <=? c) && (c <=? 122) then c - 32 else c.
